@@ -452,6 +452,52 @@ def check_alone_picky(ck, prog):
           key="ALONE:picky-dict-size-set")
 
 
+def check_xz_lzma_heur(ck, prog_xz, rule="C16-XZ"):
+    """xz decides "is this a .lzma file?" itself (is_format_lzma) with the same dictionary-size heuristic as liblzma's
+    picky mode: 2^n or 2^n + 2^(n-1).  Its smear `d |= d >> k` must have the same distance set (every distance except
+    1), otherwise xz refuses .lzma files that lzmadec and the library decode (or feeds garbage to the decoder)."""
+    f = prog_xz.fn("is_format_lzma", "coder.c", target="xz")
+    ck.saw_function(f)
+    var = None
+    for b in f.blocks.values():
+        t = b.term
+        if t and "cond" in t:
+            c = ex.strip(t["cond"])
+            if c is not None and c.get("k") == "bin" and c["op"] in ("!=", "==") and ex.show(ex.strip(c["r"])) == "dict_size" \
+                    and ex.strip(c["l"]).get("k") == "var":
+                var = ex.strip(c["l"])["n"]
+    if var is None:
+        raise AnalysisBroken("is_format_lzma: the comparison of the rounded dictionary size with dict_size was not found")
+    S = {0}
+    nsh = 0
+    other = None
+    for b, i, e in f.iter_elems():
+        for (l, r, op, node) in ex.writes(e):
+            ls = ex.strip(l)
+            if ls is None or ls.get("k") != "var" or ls["n"] != var:
+                continue
+            rr = ex.strip(r) if r is not None else None
+            if op == "|=" and rr is not None and rr.get("k") == "bin" and rr["op"] == ">>" and \
+                    ex.strip(rr["l"]).get("n") == var and ex.const_val(rr["r"]) is not None:
+                kk = ex.const_val(rr["r"])
+                S = {a for a in (S | {x + kk for x in S}) if a < 32}
+                nsh += 1
+            elif op in ("pre++", "post++", "="):
+                continue
+            else:
+                other = node
+    if nsh == 0 or other is not None:
+        raise AnalysisBroken("is_format_lzma: the dictionary-size rounding is no longer an OR/shift smear")
+    SREF = {0} | set(range(2, 32))
+    ok = S == SREF
+    ck.ob(rule, "xz-lzma-dict-size-set", ok, common.where(f),
+          "xz is_format_lzma accepts exactly 2^n and 2^n + 2^(n-1) (smear distance set = every distance except 1)" if ok else
+          "xz is_format_lzma(): the smear distances lack %s / add %s compared with the .lzma heuristic (2^n or 2^n + 2^(n-1)) "
+          "that liblzma's picky mode and lzmadec use: xz reports `File format not recognized` for .lzma files with such "
+          "dictionary sizes (e.g. 3 MiB) that the library decodes, or accepts sizes it should not" % (
+              sorted(SREF - S), sorted(S - SREF)), key="XZ:lzma-dict-size-set")
+
+
 def check_lzip_acct(ck, prog):
     """.lz member size accounting: a header byte taken with in[(*in_pos)++] is counted in coder->member_size before the
     function can return with a non-fatal code -- otherwise the Member Size check of the footer depends on where the
@@ -592,10 +638,16 @@ def run(ck):
                              "coder->sequence")
     reinit.check_stale_nested(ck, prog, "C16-STALENEXT", files=FILES)
     ck.floor("C16-STALENEXT", 2)
+    # "Streams may be concatenated with zero padding in multiples of four bytes": the padding length survives the
+    # slicing of the input (accumulator rule shared with C05/C06)
+    ck.rule("C16-ACCUM", "a member that a resumable state tests and stores to while it can be re-entered is updated from its old value")
+    reinit.check_accumulators(ck, prog, "C16-ACCUM", files={"stream_decoder.c", "stream_decoder_mt.c", "lzip_decoder.c",
+                                                            "alone_decoder.c", "auto_decoder.c"})
     ck.floor("C16-ALONE", 9)
     prog_xz = common.program(ck, ("xz",), files=("/coder.c",))
     check_xz_magic(ck, prog, prog_xz)
-    ck.floor("C16-XZ", 4)
+    check_xz_lzma_heur(ck, prog_xz)
+    ck.floor("C16-XZ", 5)
     # "concatenation rules hold": xz accepts a .lzma / raw stream only when nothing follows it (rule shared with C17)
     from . import C17
     C17.check_fail(ck, prog_xz)
